@@ -12,6 +12,8 @@ CONSTANTS
   OkSet = {TRUE, FALSE}
   ForeignRefCheck = TRUE
   HeaderSetCheck = TRUE
+  Mutations = FALSE
+  CopyRule = "firstfree"
   ItemRefs = {0, 7}
 INVARIANT PrintLeaf
 CHECK_DEADLOCK FALSE
